@@ -1,6 +1,7 @@
 mod badgen;
 mod chainsim;
 mod checks;
+mod crashsim;
 mod node;
 mod refmodel;
 mod rng;
@@ -90,6 +91,7 @@ fn main() {
 			let res = match rp["engine"].as_str() {
 				Some("chainsim") => checks::replay_chainsim(rp),
 				Some("storesim") => storesim::replay(rp),
+				Some("crashsim") => crashsim::replay(rp),
 				other => Err(format!("unknown engine {:?}", other)),
 			};
 			node::cleanup_scratch_root();
